@@ -5,7 +5,6 @@
 #pragma once
 #include "guard.h"
 #include "vf.h"
-#include <deque>
 #include <string>
 #include <vector>
 
@@ -95,7 +94,7 @@ namespace c15
         std::string line;
         unsigned cur = 0;
         unsigned histpos = 0;
-        std::deque<std::string> hist; // most recent first, at most H entries; missing entries are empty slots
+        std::vector<std::string> hist; // most recent first, at most H entries; missing entries are empty slots
         enum
         {
             GROUND,
@@ -138,7 +137,7 @@ namespace c15
                     executed.push_back(line);
                     if (!line.empty() && (hist.empty() || hist.front() != line))
                     {
-                        hist.push_front(line);
+                        hist.insert(hist.begin(), line);
                         if (hist.size() > H)
                             hist.pop_back();
                     }
@@ -271,6 +270,8 @@ namespace c15
                     else
                         rows[r][c++] = (char)b;
                 }
+                else if (b == 0 || b == 7)
+                    ; // NUL, BEL: no effect on what the screen shows
                 else
                     flag("control byte", b);
                 break;
@@ -337,6 +338,19 @@ namespace c15
                 s.pop_back();
             return s;
         }
+        // row i == text followed by blanks only
+        bool row_is(int i, const char *a, size_t na, const std::string &b) const
+        {
+            const std::string &row = rows[i];
+            if (na + b.size() > row.size())
+                return false;
+            if (memcmp(row.data(), a, na) != 0 || memcmp(row.data() + na, b.data(), b.size()) != 0)
+                return false;
+            for (size_t k = na + b.size(); k < row.size(); k++)
+                if (row[k] != ' ')
+                    return false;
+            return true;
+        }
     };
 
     // ------------------------------------------------------------------------------------------------ observation sink
@@ -344,15 +358,10 @@ namespace c15
     {
         std::string out;               // every byte given to the write callback
         std::vector<std::string> exec; // every (line, length) given to the execute callback
-        bool bad_terminator = false;   // line[length] != 0 or strlen(line) != length
         int sigints = 0;
         void on_write(const char *p, unsigned n) { out.append(p, n); }
-        void on_exec(const char *p, unsigned n)
-        {
-            if (p[n] != '\0' || strlen(p) != n) // reads p[n]: inside the exact line buffer only if n < cap
-                bad_terminator = true;
-            exec.emplace_back(p, n);
-        }
+        // reads exactly line[0..length): a length beyond the exact line buffer is an ASan report
+        void on_exec(const char *p, unsigned n) { exec.emplace_back(p, n); }
     };
 
     struct Cfg
@@ -439,23 +448,20 @@ namespace c15
                 bad("screen:unmodelled-output", a, false, false, scr.unmodelled);
             if (scr.overflow)
                 vf::fail("harness:screen-too-narrow", "%s", witness().c_str());
-            std::string want = std::string(cfg.prompt_text()) + ref.line;
-            std::string wantrow = want;
-            while (!wantrow.empty() && wantrow.back() == ' ')
-                wantrow.pop_back();
-            int wantcol = (int)strlen(cfg.prompt_text()) + (int)ref.cur;
-            std::string got = scr.row_trimmed(scr.r);
-            if (scr.r != (int)scr.rows.size() - 1 || got != wantrow)
+            const char *pt = cfg.prompt_text();
+            size_t pl = strlen(pt);
+            int wantcol = (int)pl + (int)ref.cur;
+            if (scr.r != (int)scr.rows.size() - 1 || !scr.row_is(scr.r, pt, pl, ref.line))
             {
                 char d[400];
-                snprintf(d, sizeof d, "screen row %d of %zu shows \"%s\", reference \"%s\"", scr.r, scr.rows.size(), got.c_str(), want.c_str());
+                snprintf(d, sizeof d, "screen row %d of %zu shows \"%s\", reference \"%s%s\"", scr.r, scr.rows.size(), scr.row_trimmed(scr.r).c_str(), pt, ref.line.c_str());
                 bad("screen:row", a, cursor_mid, false, d);
             }
             VF_OK("screen row == prompt + reference line");
             if (scr.c != wantcol)
             {
                 char d[200];
-                snprintf(d, sizeof d, "screen cursor column %d, reference %d (row \"%s\")", scr.c, wantcol, got.c_str());
+                snprintf(d, sizeof d, "screen cursor column %d, reference %d (row \"%s\")", scr.c, wantcol, scr.row_trimmed(scr.r).c_str());
                 bad("screen:cursor", a, cursor_mid, false, d);
             }
             VF_OK("screen cursor == prompt + reference cursor");
@@ -481,8 +487,6 @@ namespace c15
             count_act(a);
             check_bounds(a);
             // executed lines: same number, same text, NUL-terminated at the reported length
-            if (sink.bad_terminator)
-                bad("exec:terminator", a, false, false, "line[length] != NUL or strlen(line) != length");
             if (sink.exec.size() != ref.executed.size())
             {
                 char d[200];
@@ -508,10 +512,9 @@ namespace c15
                 if (ref.ground())
                 {
                     unsigned len = term.len(), cur = term.cursor();
-                    std::string got(term.data(), len);
                     bool recall = a == A_UP || a == A_DOWN;
-                    if (len != ref.line.size() || got != ref.line)
-                        bad(recall ? "history:recall" : "editor:line", a, cursor_mid, false, "line \"" + got + "\", reference \"" + ref.line + "\"");
+                    if (len != ref.line.size() || memcmp(term.data(), ref.line.data(), len) != 0)
+                        bad(recall ? "history:recall" : "editor:line", a, cursor_mid, false, "line \"" + std::string(term.data(), len) + "\", reference \"" + ref.line + "\"");
                     if (cur != ref.cur)
                     {
                         char d[96];
@@ -559,7 +562,6 @@ namespace c15
     // -------------------------------------------------------------- suite: exhaustive key sequences
     static const unsigned CAPS[4] = {2, 3, 4, 8};
     static const unsigned HISTS[3] = {1, 2, 3};
-    static inline int seq_len() { return vf::thorough() ? 7 : 5; }
     static const int SUFFIX = 3; // keys enumerated inside one case
     static inline uint64_t ipow(uint64_t b, int e)
     {
@@ -568,8 +570,15 @@ namespace c15
             r *= b;
         return r;
     }
-    static inline uint64_t exh_count() { return 12 * ipow(K_NKEYS, seq_len() - SUFFIX); }
-    template <class Term> static void exh_run(uint64_t idx)
+    // All sequences of exactly L keys over the first `nkeys` keys of the alphabet (every shorter sequence is a prefix
+    // and the clauses are evaluated after every byte) x 4 capacities x 3 history depths.  One case = one
+    // (configuration, prefix of L-3 keys) with all nkeys^3 continuations.
+    //   suite A: all 14 keys (12 whole keys + raw ESC + raw '[' so that sequences are also split/malformed), L = 5 / 6
+    //   suite B (thorough only): the 12 whole keys, L = 7
+    static inline int lenA() { return vf::thorough() ? 6 : 5; }
+    static inline uint64_t exhA_count() { return 12 * ipow(K_NKEYS, lenA() - SUFFIX); }
+    static inline uint64_t exhB_count() { return vf::thorough() ? 12 * ipow(12, 7 - SUFFIX) : 0; }
+    template <class Term> static void exh_run(uint64_t idx, unsigned nkeys, int L)
     {
         char tag[40];
         snprintf(tag, sizeof tag, "%s:vterm", Term::impl());
@@ -577,16 +586,15 @@ namespace c15
         unsigned cfgi = idx % 12;
         idx /= 12;
         Cfg cfg{CAPS[cfgi % 4], HISTS[cfgi / 4], nullptr};
-        int L = seq_len();
         uint8_t keys[16];
-        for (int i = 0; i < L - SUFFIX; i++, idx /= K_NKEYS)
-            keys[i] = idx % K_NKEYS;
-        uint64_t nsuf = ipow(K_NKEYS, SUFFIX), nontrivial = 0;
+        for (int i = 0; i < L - SUFFIX; i++, idx /= nkeys)
+            keys[i] = idx % nkeys;
+        uint64_t nsuf = ipow(nkeys, SUFFIX), nontrivial = 0;
         for (uint64_t s = 0; s < nsuf; s++)
         {
             uint64_t t = s;
-            for (int i = L - SUFFIX; i < L; i++, t /= K_NKEYS)
-                keys[i] = t % K_NKEYS;
+            for (int i = L - SUFFIX; i < L; i++, t /= nkeys)
+                keys[i] = t % nkeys;
             Runner<Term> R(cfg);
             R.start();
             bool edits = false;
@@ -598,12 +606,14 @@ namespace c15
                     break;
             }
             nontrivial += edits;
-            if (s == 1234 && vf::want_sample())
+            if (s == 1234 && cfgi == 5 && vf::want_sample())
                 vf::sample("exhaustive: %s", R.witness().c_str());
         }
         vf::count_bulk(nsuf, nontrivial);
-        VF_OK("exhaustive batch (one prefix, all 14^3 suffixes)");
+        VF_OK("exhaustive batch (one configuration and prefix, all continuations of 3 keys)");
     }
+    template <class Term> static void exhA_run(uint64_t idx) { exh_run<Term>(idx, K_NKEYS, lenA()); }
+    template <class Term> static void exhB_run(uint64_t idx) { exh_run<Term>(idx, 12, 7); }
 
     // -------------------------------------------------------------- suite: random long sequences
     static inline uint64_t rnd_count() { return vf::thorough() ? 200000 : 2000; }
@@ -877,7 +887,7 @@ namespace c15
         }
     };
 
-    static inline int sl_len() { return vf::thorough() ? 7 : 5; }
+    static inline int sl_len() { return vf::thorough() ? 6 : 5; }
     static const int SL_SUFFIX = 3;
     static inline uint64_t slexh_count() { return 4 * ipow(S_NOPS, sl_len() - SL_SUFFIX); }
     template <class SL> static void slexh_run(uint64_t idx)
@@ -942,7 +952,7 @@ namespace c15
                               "printable typed into a full line ignored", "sline: 0 <= cursor <= len < cap after every operation",
                               "sline: line and cursor == reference", "sline: bulk insert longer than the room stays inside the line",
                               "sline: bulk insert that fits is taken completely", "sline: putchar into a full line rejected",
-                              "sline: getline NUL-terminates at buf[len] inside the buffer", "exhaustive batch (one prefix, all 14^3 suffixes)"})
+                              "sline: getline NUL-terminates at buf[len] inside the buffer", "exhaustive batch (one configuration and prefix, all continuations of 3 keys)"})
             vf::require(c);
         // every reference action must have been driven
         for (int a = A_INSERT; a < A_NACTS; a++)
